@@ -207,6 +207,66 @@ fn run_case_inner(op: &str, inp: &Value) -> String {
             };
             format!("(N.max ({}) (c_scaling_cov {} {} ({})%Z {} {}))", inner, cfl(tol), cfl(lam), kk, s3(&hs1), s3(&hs2))
         }
+        // HISTORIES on one cone object: after every update_scaling call the stored scaling must be
+        // the model's value for that call's (s, z, mu, strategy) alone
+        "scaling_hist" => {
+            let cone = inp["cone"].as_str().unwrap();
+            let calls = inp["calls"].as_array().unwrap();
+            let x = fv(&inp["x"]);
+            let mut parts: Vec<String> = vec![];
+            if cone == "gp" {
+                let al = fv(&inp["alphas"]);
+                let d1 = al.len();
+                let n = x.len();
+                let mut k = GenPowerCone::<f64>::new(al.clone(), n - d1);
+                for c in calls {
+                    let (sv, z, mu, dual) = (fv(&c["s"]), fv(&c["z"]), f(&c["mu"]), c["dual"].as_bool().unwrap());
+                    let ok = k.update_scaling(&sv, &z, mu, strategy(dual));
+                    if !ok { parts.push("1%N".into()); continue; }
+                    let st = k.verif_state();
+                    let fval = k.verif_barrier_dual(&z);
+                    let (mut y, mut yz, mut work, mut diag) = (vec![0.0; n], vec![0.0; n], vec![0.0; n], vec![0.0; n]);
+                    k.mul_Hs(&mut y, &x, &mut work);
+                    k.mul_Hs(&mut yz, &z, &mut work);
+                    k.get_Hs(&mut diag);
+                    let tol = cfl(1e-7);
+                    parts.push(format!("c_gp_gradH {} {} {} {} {} {}", tol, cfllist(&al), cfllist(&z[..d1]), cfllist(&z[d1..]), gp_state_coq(&st, d1), cfl(fval)));
+                    parts.push(format!("c_gp_mulHs {} {} {} {} {} {} {} {} {} {}", tol, gp_state_coq(&st, d1), cfl(mu), cfllist(&x[..d1]), cfllist(&x[d1..]), cfllist(&y),
+                                       cfllist(&z[..d1]), cfllist(&z[d1..]), cfllist(&yz), cfllist(&diag)));
+                    parts.push(format!("ofb (feq {} {})", cfl(mu), cfl(st.2)));
+                }
+            } else {
+                let al = f(&inp["alpha"]);
+                let mut ke = ExponentialCone::<f64>::new();
+                let mut kp = PowerCone::<f64>::new(al);
+                for c in calls {
+                    let (sv, z, mu, dual) = (fv(&c["s"]), fv(&c["z"]), f(&c["mu"]), c["dual"].as_bool().unwrap());
+                    let (mut y, mut packed, mut work) = ([0.0; 3], [0.0; 6], [0.0; 3]);
+                    if cone == "exp" {
+                        ke.update_scaling(&sv, &z, mu, strategy(dual));
+                        let (h, hs, g, zs) = ke.verif_state();
+                        let zt = ke.verif_gradient_primal(&sv);
+                        ke.mul_Hs(&mut y, &x, &mut work);
+                        ke.get_Hs(&mut packed);
+                        parts.push(format!("c_exp_scaling {} {} {} {} {} {} {} {} {}", cfl(1e-5), cb(dual), v3(&sv), v3(&z), cfl(mu), v3(&g), s3(&h), s3(&hs), v3(&zt)));
+                        parts.push(format!("c_exp_gradH {} {} {} {} {}", cfl(1e-7), v3(&z), v3(&g), s3(&h), cfl(ke.verif_barrier_dual(&z))));
+                        parts.push(format!("c_mul_Hs {} {} {} {}", s3(&hs), v3(&x), v3(&y), cfllist(&packed)));
+                        parts.push(format!("ofb (all3 feq {} {})", v3(&z), v3(&zs)));
+                    } else {
+                        kp.update_scaling(&sv, &z, mu, strategy(dual));
+                        let (h, hs, g, zs) = kp.verif_state();
+                        let zt = kp.verif_gradient_primal(&sv);
+                        kp.mul_Hs(&mut y, &x, &mut work);
+                        kp.get_Hs(&mut packed);
+                        parts.push(format!("c_pow_scaling {} {} {} {} {} {} {} {} {} {}", cfl(1e-5), cfl(al), cb(dual), v3(&sv), v3(&z), cfl(mu), v3(&g), s3(&h), s3(&hs), v3(&zt)));
+                        parts.push(format!("c_pow_gradH {} {} {} {} {} {}", cfl(1e-7), cfl(al), v3(&z), v3(&g), s3(&h), cfl(kp.verif_barrier_dual(&z))));
+                        parts.push(format!("c_mul_Hs {} {} {} {}", s3(&hs), v3(&x), v3(&y), cfllist(&packed)));
+                        parts.push(format!("ofb (all3 feq {} {})", v3(&z), v3(&zs)));
+                    }
+                }
+            }
+            format!("(maxl [{}])", parts.join("; "))
+        }
         "exp_unit" => {
             let k = ExponentialCone::<f64>::new();
             let (mut z, mut s) = ([0.0; 3], [0.0; 3]);
@@ -561,6 +621,32 @@ fn generate(sink: &mut CaseSink, seed: u64, thorough: bool) -> BTreeMap<String, 
             let inp = json!({"alpha": al, "s": s, "z": z, "k": k, "tol": 1e-5, "minor_bits": 40});
             emit(sink, &mut g, if is_exp { "exp_scaling_cov" } else { "pow_scaling_cov" }, inp, "balance");
         }
+    }
+    // histories of update_scaling calls on ONE cone object: same (s, z) with a changed strategy
+    // and / or mu, interleaved with calls at new points
+    for k in 0..(30 * scale) {
+        let cone = ["exp", "pow", "gp"][k % 3];
+        let al = g.alpha();
+        let (d1, d2) = (2 + g.rng.below(2), 1 + g.rng.below(2));
+        let als = g.gp_alpha(d1);
+        let mut pt = |g: &mut Gen| -> (Vec<f64>, Vec<f64>) {
+            let (ms, mz) = (g.logu(0.05, 0.9), g.logu(0.05, 0.9));
+            match cone { "exp" => (g.exp_primal(ms), g.exp_dual(mz)), "pow" => (g.pow_primal(al, ms), g.pow_dual(al, mz)),
+                         _ => (g.gp_point(&als, d2, false, ms), g.gp_point(&als, d2, true, mz)) }
+        };
+        let (p1, p2) = (pt(&mut g), pt(&mut g));
+        let mu = g.logu(1e-3, 10.0);
+        let call = |p: &(Vec<f64>, Vec<f64>), mu: f64, dual: bool| json!({"s": p.0, "z": p.1, "mu": mu, "dual": dual});
+        let calls = match (k / 3) % 5 {
+            0 => vec![call(&p1, mu, false), call(&p1, mu, true)],
+            1 => vec![call(&p1, mu, true), call(&p1, mu, false), call(&p1, 2.0 * mu, true)],
+            2 => vec![call(&p1, mu, true), call(&p1, 2.0 * mu, true), call(&p1, mu / 8.0, true)],
+            3 => vec![call(&p1, mu, false), call(&p2, mu, true), call(&p2, mu / 8.0, true), call(&p1, 2.0 * mu, false)],
+            _ => vec![call(&p2, mu, true), call(&p1, mu, false), call(&p1, 2.0 * mu, true), call(&p1, 2.0 * mu, false)],
+        };
+        let n = p1.0.len();
+        let x = g.dir(n);
+        emit(sink, &mut g, "scaling_hist", json!({"cone": cone, "alpha": al, "alphas": als, "calls": calls, "x": x}), "history");
     }
     emit(sink, &mut g, "exp_unit", json!({}), "unit");
     for _ in 0..(10 * scale) { let al = g.alpha(); emit(sink, &mut g, "pow_unit", json!({"alpha": al}), "unit"); }
